@@ -7,6 +7,7 @@ for d in seeded/C??-*; do
   out=$(./seedtest.sh $d $id quick 2>&1)
   ex=$(echo "$out" | grep -o "check-exit=[0-9]*" | cut -d= -f2)
   what=$(echo "$out" | grep -m1 "what:" | cut -c1-300)
+  if echo "$out" | grep -q "PATCH DOES NOT APPLY"; then ex=-2; what="patch no longer applies to /repo HEAD (written against an earlier commit)"; fi
   python3 - "$d" "$ex" "$what" <<'P'
 import json, sys
 d, ex, what = sys.argv[1:4]
